@@ -6,7 +6,7 @@
 From Coq Require Import List ZArith Bool Lia.
 Import ListNotations.
 Require Import ExprParser ExprSound ExprComplete ExprTotal ExprEval ExprFacts.
-Require Base ExprString.
+Require Base ExprString ExprRename ExprSpacing LexGrammar TokModel Instances.
 
 Section C01.
   Variable V : Type.
@@ -64,7 +64,37 @@ Section C01.
     pose proof (calc_is_tree V const var bin un callf intv as_nat as_nat_intv _ _ HD) as Hc. unfold calculate in Hc.
     destruct (parse_top (ExprString.toks_from 0 items)) as [prog| |]; try discriminate. inversion Hc as [Hr]. reflexivity.
   Qed.
+  (* ... and with ARBITRARY spacing: any whitespace runs and block comments between the items (or nothing, where
+     neighbours cannot merge) - the text only has to be a lexeme sequence of the expression grammar *)
+  Theorem C01_spaced_text_evaluates_to_the_value_of_its_tree : forall gi e, gi <> [] -> ExprSpacing.gi_ok gi ->
+    LexGrammar.lexemes TokModel.expr_cfg (TokModel.regs_of Tables.expr_symbols) (ExprSpacing.glexs gi) ->
+    Base.wf_str (concat (map snd (ExprSpacing.glexs gi))) -> D0 (ExprSpacing.toks_at 0 gi) e ->
+    calculate_text (concat (map snd (ExprSpacing.glexs gi))) = Some (Ok (eval V const var bin un callf e)).
+  Proof.
+    intros gi e H1 H2 H3 H4 HD. unfold calculate_text. rewrite (ExprSpacing.parse_string_spaced gi H1 H2 H3 H4).
+    pose proof (calc_is_tree V const var bin un callf intv as_nat as_nat_intv _ _ HD) as Hc. unfold calculate in Hc.
+    destruct (parse_top (ExprSpacing.toks_at 0 gi)) as [prog| |]; try discriminate. inversion Hc as [Hr]. reflexivity.
+  Qed.
 End C01.
+
+(* whitespace, comments and the resulting token positions never change the result: two spacings of the same items give
+   token sequences that differ only in the numbering of constants and variables (ExprSpacing.spacing_only_renumbers),
+   the grammar is parametric in that numbering, and so is the value as long as position f i of the second text carries what
+   position i of the first carries *)
+Theorem C01_spacing_only_renumbers_the_tokens : forall gi gi', Forall ExprString.item_ok (map fst gi) -> map fst gi = map fst gi' ->
+  ExprSpacing.toks_at 0 gi' = map (ExprRename.rt (ExprSpacing.ren (ExprSpacing.pos_at 0 gi) (ExprSpacing.pos_at 0 gi'))) (ExprSpacing.toks_at 0 gi).
+Proof. exact ExprSpacing.spacing_only_renumbers. Qed.
+Theorem C01_result_does_not_depend_on_the_numbering : forall (V : Type) (f : Z -> Z) const const' var var' bin un callf callf' intv as_nat,
+  (forall i, const' (f i) = const i) -> (forall i, var' (f i) = var i) -> (forall i vs, callf' (f i) vs = callf i vs) ->
+  (forall k, as_nat (intv k) = Some k) -> forall ts e, D0 ts e ->
+  calculate V const' var' bin un callf' intv as_nat (map (ExprRename.rt f) ts) = calculate V const var bin un callf intv as_nat ts.
+Proof. intros V f c c' v v' b u cf cf' iv an H1 H2 H3 H4 ts e HD. exact (ExprRename.calculator_is_parametric V f c c' v v' b u cf cf' H1 H2 H3 iv an H4 ts e HD). Qed.
+(* non-vacuity:  a  +12/* c */ *b  meets the premises and parses to tokens at positions 0, 2, 3, 5, 6 *)
+Example C01_spaced_text_premises_satisfiable :
+  ExprSpacing.gi_ok ExprSpacing.spaced_sample /\
+  LexGrammar.lexemes TokModel.expr_cfg (TokModel.regs_of Tables.expr_symbols) (ExprSpacing.glexs ExprSpacing.spaced_sample) /\
+  Base.wf_str (concat (map snd (ExprSpacing.glexs ExprSpacing.spaced_sample))).
+Proof. exact ExprSpacing.spaced_sample_ok. Qed.
 
 (* redundant parentheses never change the tree (hence, by the theorems above, never the result) *)
 Theorem C01_parentheses_add_no_node : forall ts e, D0 ts e -> D0 (TLP :: ts ++ [TRP]) e.
@@ -87,6 +117,9 @@ Proof. vm_compute. reflexivity. Qed.
 
 Print Assumptions C01_calculator_result_is_tree_value.
 Print Assumptions C01_text_evaluates_to_the_value_of_its_tree.
+Print Assumptions C01_spaced_text_evaluates_to_the_value_of_its_tree.
+Print Assumptions C01_spacing_only_renumbers_the_tokens.
+Print Assumptions C01_result_does_not_depend_on_the_numbering.
 Print Assumptions C01_calculator_only_evaluates_trees.
 Print Assumptions C01_stack_machine_runs_postorder.
 Print Assumptions C01_operands_in_written_order.
